@@ -1,3 +1,4 @@
+import Pocket.Model.Crash
 import Pocket.Lemmas.StoreRead
 import Pocket.Lemmas.Refine2
 /-
@@ -101,5 +102,23 @@ theorem abstract_failed_store (a : Abs) (e : EventRec) (h : ∀ off, (absStore a
     | err => exact ⟨rfl, rfl, rfl⟩
   · simp only [c5, if_false] at h
     exact absurd rfl (h (align8 a.end))
+
+/-- the "any other error" clause, on the micro-step model of a store call (`Model/Crash.lean`: transaction open and checks,
+padding appended, event bytes in place, index committed): whatever makes the call stop before its commit - a lookup that
+fails because no reader slot is free, an I/O error while the map grows - every table is exactly what it was; only the commit,
+the last step, changes them.  (The two faults are injected into the real store by the worker requests `RDF` and `FSZ`.) -/
+theorem error_before_commit_noop (s : Store) (e : EventRec) :
+    ∀ st ∈ (storeCrashStates s e).dropLast, st.db = s.db := by
+  intro st hst
+  unfold storeCrashStates at hst
+  split at hst
+  · simp at hst
+  · split at hst
+    · simp at hst
+    · simp only [List.dropLast, List.mem_cons, List.not_mem_nil, or_false] at hst
+      rcases hst with h | h | h <;> rw [h]
+
+/-- not vacuous: an accepted store passes through three states before its commit -/
+example : (storeCrashStates {} ⟨List.replicate 32 1, List.replicate 32 2, [], 1, 5, [], []⟩).dropLast.length = 3 := by decide +kernel
 
 end Pocket.C12
